@@ -169,7 +169,7 @@ def r3_validation_first(R) -> None:
         seen = set()
         for k in ks:
             for nm in ('start', 'end'):
-                if f.holds(k.id, f'{nm} is None', False) and f.holds(k.id, f'isinstance(self._locate_period_in_span({nm}), int)', False) \
+                if f.holds(k.id, f'{nm} is None', False) and f.xholds(k.id, f'isinstance(self._locate_period_in_span({nm}), int)', False) \
                         and text(k.ast.exc) == f'KeyError({nm})':
                     seen.add(nm)
             tn = [f.cfg.nodes[tid] for (tid, lab) in f.guards_of(k.id) if f.cfg.nodes[tid].kind == 'test']
